@@ -54,7 +54,10 @@ def run_case(case):
             rfull = min(T.shape)
             try:
                 # (i) rank >= rank of the data => identity
-                W = rng.standard_normal((nc, nf)) + 1j * rng.standard_normal((nc, nf))
+                # (the units of the data are the caller's: spectra of recordings in Volts, in counts, of weak bins - any amplitude scale)
+                scale = float(10 ** rng.uniform(-13, 6)) if rng.random() < 0.6 else 1.0
+                label += f" scale={scale:.1e}"
+                W = (rng.standard_normal((nc, nf)) + 1j * rng.standard_normal((nc, nf))) * scale
                 W0 = W.copy()
                 out = CZ.denoise(W, x, y, rfull)
                 err = np.max(np.abs(out - W0)) / np.max(np.abs(W0))
@@ -77,7 +80,7 @@ def run_case(case):
                 res.check(np.all(trc > 0) and trc.size == nc, "cadzow:trajectory-coverage", f"{label}: trace counts {trc[:8]}")
                 # (ii) a single plane wave has rank one
                 kx, ky = rng.uniform(-0.05, 0.05, 2)
-                amp = rng.standard_normal(nf) + 1j * rng.standard_normal(nf)
+                amp = (rng.standard_normal(nf) + 1j * rng.standard_normal(nf)) * scale
                 P = np.exp(1j * (kx * x + ky * y))[:, None] * amp[None, :]
                 out = CZ.denoise(P.copy(), x, y, 1)
                 err = np.max(np.abs(out - P)) / np.max(np.abs(P))
